@@ -209,6 +209,11 @@ func (d *Driver) handleCallbacks(
 
 	select {
 	case r := <-c:
+		if r == nil {
+			// the reading goroutine saw the deadline first and closed the channel without a result
+			return nil, fmt.Errorf("%w: timeout handling callbacks", util.ErrTimeoutError)
+		}
+
 		if r.err != nil {
 			return nil, r.err
 		}
